@@ -50,6 +50,11 @@ the instrumented renderable of impl/impl_c10.py (VR10, built on C08's VR):
   with nested / concurrent finalization (composite renderables, a second thread gated inside a finalizer;
   model/FinNest.v, judge model/FinNestTie.v [ncheck]).
 
+* "client" (props/c10_client.py, driver impl/impl_c10_client.py): ALL client code that runs inside next() - `_render_`,
+  the padding object's `pad` / `get_padded_size` / `_get_exact_dimensions_` (a client Padding subclass), a non-Frame
+  returned by `_render_` - failing at the k-th call FOR ALL k of a history (model/IterClient.v, judge
+  model/IterClientTie.v [kcheck]).
+
 model/IterFinTie.v judges inside Coq: [check10] / [ocheck10] = bit 1 (differs from the
 finalisation ghost of the code model Iter) + bit 2 (the observations alone contradict the
 property: double finalize, render on finalized data, leak, a caller's data finalized,
@@ -65,7 +70,8 @@ from props import c08 as base
 from props import c10_life as life
 
 LEVEL = "proof"
-EXTRA_TARGETS = ["model/IterFinTie.vo", "model/DrawUseTie.vo", "model/IterCtorTie.vo", "model/FinNestTie.vo"]
+EXTRA_TARGETS = ["model/IterFinTie.vo", "model/DrawUseTie.vo", "model/IterCtorTie.vo", "model/FinNestTie.vo",
+                 "model/IterClientTie.vo"]
 
 N = ["next"]
 KINDS = {0: "StopIteration", 1: "RuntimeError", 2: "AttributeError", 3: "KeyError", 4: "ValueError",
@@ -474,16 +480,19 @@ def evaluate(cases, tag="c10"):
 
     # one driver process per CPU (start-up dominates); cases dealt round-robin so that the expensive
     # (enumerated) ones spread evenly; the two drivers run side by side
-    def deal(script, idxs):
-        order = sorted(range(len(idxs)), key=lambda i: (i % core.NCPU, i))
-        dealt = core.run_impl_parallel(script, [cases[idxs[i]] for i in order], timeout=IMPL_TIMEOUT)
+    def deal(script, idxs, procs=core.NCPU):
+        order = sorted(range(len(idxs)), key=lambda i: (i % procs, i))
+        dealt = core.run_impl_parallel(script, [cases[idxs[i]] for i in order], timeout=IMPL_TIMEOUT,
+                                       chunk=max(1, -(-len(idxs) // procs)))
         return [(idxs[i], g) for i, g in zip(order, dealt)]
 
     old_i = [i for i, c in enumerate(cases) if not life.is_life(c)]
-    new_i = [i for i, c in enumerate(cases) if life.is_life(c)]
+    new_i = [i for i, c in enumerate(cases) if life.is_life(c) and not life.client.is_client(c)]
+    cli_i = [i for i, c in enumerate(cases) if life.client.is_client(c)]
     groups = [None] * len(cases)
-    with ThreadPoolExecutor(max_workers=2) as ex:
-        futs = [ex.submit(deal, "impl_c10.py", old_i), ex.submit(deal, "impl_c10_life.py", new_i)]
+    with ThreadPoolExecutor(max_workers=3) as ex:
+        futs = [ex.submit(deal, "impl_c10.py", old_i), ex.submit(deal, "impl_c10_life.py", new_i),
+                ex.submit(deal, "impl_c10_client.py", cli_i, max(1, min(core.NCPU, len(cli_i) // 12)))]
         for f in futs:
             for i, g in f.result():
                 groups[i] = g
@@ -762,8 +771,9 @@ def run(ctx):
         n_dio = 30 if ctx.quick else 500
         n_ctor = 60 if ctx.quick else 700
         n_nest = 150 if ctx.quick else 2500
+        n_client = 40 if ctx.quick else 600
         corpus = [copy.deepcopy(c) for c in ITER_CORPUS + ONESHOT_CORPUS + SESSION_CORPUS + DRAWIO_CORPUS]
-        corpus += life.ctor_corpus() + life.nest_corpus()
+        corpus += life.ctor_corpus() + life.nest_corpus() + life.client.corpus()
         n_corpus = len(corpus)
         cases = corpus + [gen_iter(rng, i, ctx.quick) for i in range(n_iter)] \
             + [gen_oneshot(rng, i) for i in range(n_one)] + [gen_session(rng, i) for i in range(n_sess)] \
@@ -772,13 +782,15 @@ def run(ctx):
         rng2 = random.Random(rng.random())
         cases += [life.gen_ctor(rng2, i, ctx.quick) for i in range(n_ctor)] \
             + [life.gen_nest(rng2, i, ctx.quick) for i in range(n_nest)]
+        rng3 = random.Random(rng2.random())
+        cases += [life.client.gen(rng3, i, ctx.quick) for i in range(n_client)]
     variants, codes, errors, obs = evaluate(cases)
 
     failing = [k for k, code in enumerate(codes) if code >= 2]
     failures = []
     if failing:
         pick = failing[:40]
-        for fam in (life.is_ctor, life.is_nest):  # one of each later family, if it failed at all
+        for fam in (life.is_ctor, life.is_nest, life.client.is_client):  # one of each later family, if it failed at all
             k = next((k for k in failing if fam(variants[k])), None)
             if k is not None and k not in pick:
                 pick.append(k)
@@ -793,13 +805,14 @@ def run(ctx):
         first_drawio = next((k for k, c in enumerate(chosen) if is_drawio(c)), None)
         first_ctor = next((k for k, c in enumerate(chosen) if life.is_ctor(c)), None)
         first_nest = next((k for k, c in enumerate(chosen) if life.is_nest(c)), None)
+        first_client = next((k for k, c in enumerate(chosen) if life.client.is_client(c)), None)
         minimal, budget = [], (0 if has_simple else 1)
         for k, (c, s, v) in enumerate(zip(chosen, simple, verdict)):
             if k == first_session:
                 minimal.append(shrink_session(c))
             elif k == first_drawio:
                 minimal.append(shrink_drawio(c))
-            elif k in (first_ctor, first_nest):
+            elif k in (first_ctor, first_nest, first_client):
                 minimal.append(life.shrink(c, fails_spec))
             elif life.is_life(c):
                 if sum(1 for m in minimal if m.get("mode") == c["mode"]) < 4:  # a few more, as they came
@@ -970,7 +983,9 @@ def run(ctx):
                      "renderable-defined code that receives the render data == model/DrawUse.v (dcheck10); ctor family: "
                      "the half-built iterator a faulted constructor leaves behind and what its collection does == "
                      "model/IterCtor.v (ccheck); nest family: per-object finalizer entries / flags after every step of "
-                     "scenarios with several render data objects == the machine of model/FinNest.v (ncheck)",
+                     "scenarios with several render data objects == the machine of model/FinNest.v (ncheck); client family: outcomes / finalizer entries / flags per "
+                     "operation of histories with failing padding methods and non-Frame renders == model/IterClient.v run with "
+                     "the logged client calls as its oracle (kcheck)",
         "evaluations": len(variants),
         "distinct_nontrivial": len(nontrivial),
         "rule": f"{len(cases)} base cases ({n_corpus} corpus) expanded by fault enumeration: each history / one-shot "
@@ -1014,7 +1029,13 @@ def run(ctx):
                 "still / animated), a failing _render_ in 20%; in 30% of the cases with two roots a second thread performs "
                 "close() and waits at an Event gate inside the finalizer of the root's (40%: of its first child's) render "
                 "data while the main thread performs 1-4 steps on the other tree; non-trivial there: some finalizer "
-                "finalizes another object, or two threads.",
+                "finalizes another object, or two threads.  client: histories of 2-15 operations (next / seek / "
+                "set_render_size / set_padding(new client padding) / close, a probe suffix, drop) over the three constructors, frames "
+                "{2,3,5,INDEFINITE}, client paddings that do / do not change the size, cache off, loops 1; each run unfaulted and then "
+                "once per (method, k, kind): k-th call of _render_ / Padding.pad / get_padded_size / _get_exact_dimensions_ raising one "
+                "of 7 exception classes (some: StopIteration), _render_ returning None / a tuple / an int / a str, FOR ALL k below the "
+                "number of calls of that method in the unfaulted run; non-trivial there: a fault in non-render client code (or a "
+                "non-Frame) was actually hit.",
         "samples": samples,
         "histogram": h,
         "mismatches": mismatches,
@@ -1046,6 +1067,9 @@ def run(ctx):
             "(no signal poll there in CPython >= 3.11) nor inside close / finalize / __del__ / _finalize_render_data_; "
             "nest: no finalize() of an object is attempted while its own finalizer runs (scenarios are trees); finalizers "
             "do not raise",
+            "client: exceptions of class Exception and StopIteration out of client code (BaseException bypasses __next__'s handlers "
+            "as for _render_); no frame cache, loops = 1, absolute seeks; an exception out of get_padded_size() in set_padding / "
+            "set_render_size leaves the iterator open (modelled as is; the property speaks of next())",
             "_finalize_render_data_ may raise (oracle fr in model/IterFin.v; exercised with RuntimeError at scheduled "
             "invocations); RenderIterator.close() is modelled as REPAIRED by pending_fixes/"
             "C10_close_finalizer_raises.diff (_closed set in a finally); the skeleton lemmas still treat Finalize as a "
@@ -1064,5 +1088,9 @@ def run(ctx):
             "registry until the final release (so that a missed finalize() is not masked by RenderData.__del__), except "
             "the objects a scenario's finalizer is to drop itself; computes, from public outcomes only, which render "
             "data objects each step's operation ENDS the life of, and the declared finalizer bodies",
+            "impl driver impl_c10_client.py: logs every TOP-LEVEL entry into client code (CR._render_, CP.pad, CP.get_padded_size; "
+            "nested _get_exact_dimensions_ calls are attributed to the enclosing call) with its result - that log is the oracle "
+            "the model is run with -, counts _finalize_render_data_ of the iterator's data, reads RenderData.finalized and "
+            "_closed (model agreement only) after every operation",
         ],
     }
